@@ -101,9 +101,32 @@ template <class D> struct WidenHarness : Harness {
       op.a = { r.range(0, 2), r.chance(25) ? r.range(1, 3) : 0, r.chance(25) ? r.range(1, 2) : 0, r.range(2, 5) };
       OH::gen_construct(r, op, W, false);
       for (int k = 0; k < 2; ++k) { op.a.push_back(r.range(0, 5)); gen_expr(r, op, W, false); }
+      // histories: value-preserving (or enlarging, for the smaller argument) operations applied to the two arguments
+      // before the widening, so that lazy states (pending rows, cached closures / reductions, stale flags) reach it
+      op.a.push_back(r.chance(50) ? r.range(1, 5) : 0); op.a.push_back(r.chance(50) ? r.range(1, 5) : 0); op.a.push_back(r.range(0, 7)); op.a.push_back(r.range(0, 7));
       p.ops.push_back(op);
     }
     return p;
+  }
+
+  // Lazy-state histories.  1: query the minimized constraints (caches closure / reduction / both descriptions);
+  // 2: query emptiness and a bound; 3: split: re-add the object's own constraints one by one after a minimization
+  // (pending rows for polyhedra, non-closed matrices for shapes); 4 (may_grow only): forget one variable after the
+  // reduction has been cached; 5: add a dimension and remove it again.
+  static void history(D& z, long h, long var, dimension_type dim, bool may_grow, Ctx& ctx) {
+    if (h == 0) return;
+    ctx.stat("widen.history." + std::to_string(h));
+    if (h == 1) { (void) z.minimized_constraints(); }
+    else if (h == 2) { (void) z.is_empty(); if (dim > 0) (void) z.bounds_from_above(Linear_Expression(Variable((dimension_type) var % dim))); }
+    else if (h == 3) {
+      if constexpr (Dom<D>::kind == GRID) { (void) z.minimized_congruences(); PPL::Congruence_System cgs = z.congruences(); D r(dim, PPL::UNIVERSE); (void) r.minimized_grid_generators();
+        for (auto i = cgs.begin(); i != cgs.end(); ++i) { r.add_congruence(*i); } z.m_swap(r); }
+      else { Constraint_System cs = z.minimized_constraints(); D r(dim, PPL::UNIVERSE); bool first = true;
+        for (auto i = cs.begin(); i != cs.end(); ++i) { r.add_constraint(*i); if (first) { (void) r.minimized_constraints(); (void) r.is_empty(); first = false; } }
+        z.m_swap(r); }
+    }
+    else if (h == 4) { if (may_grow && dim > 0) { (void) z.minimized_constraints(); z.unconstrain(Variable((dimension_type) var % dim)); } }
+    else if (h == 5) { z.add_space_dimensions_and_embed(1); z.remove_higher_space_dimensions(dim); }
   }
 
   static std::string kl(const Op& op, const std::string& v, const std::string& extra) { return std::string(Dom<D>::name()) + "|" + op.kind + "|-|" + v + (extra.empty() ? "" : "|" + extra); }
@@ -128,11 +151,17 @@ template <class D> struct WidenHarness : Harness {
         unsigned tokens = (unsigned) op.mod(1, 4);
         int form = (int) op.mod(2, 3);
         std::string vn = WOps<D>::name(v);
+        long tail = (long) op.a.size();
+        long hx = tail >= 4 ? op.a[(size_t) tail - 4] : 0, hy = tail >= 4 ? op.a[(size_t) tail - 3] : 0;
+        long hv1 = tail >= 4 ? op.a[(size_t) tail - 2] : 0, hv2 = tail >= 4 ? op.a[(size_t) tail - 1] : 0;
+        // history of the smaller argument (it may grow: the chain stays ascending)
+        history(*x, hx, hv1, (dimension_type) dim, true, ctx);
         // ---- grow: y = upper bound of x and a perturbation
         Cur c(op, 3, W);
         std::unique_ptr<D> pert = OH::construct_dim(dim, c);
         D y(*x);
         y.upper_bound_assign(*pert);
+        history(y, hy, hv2, (dimension_type) dim, false, ctx);
         if (!contains_set(y, *x)) { ctx.violation("C08", "chain-not-ascending", kl(op, vn, ""), "upper bound does not contain its argument (workload defect, not a widening defect)"); break; }
         Constraint_System cs;
         for (int k = 0; k < 2; ++k) cs.insert(OH::make_constraint(c, (dimension_type) dim, false, true));
